@@ -264,5 +264,5 @@ func TestC08(t *testing.T) {
 	}
 	r.CheckKnown(parts)
 	r.Exhaustive("exhaustive", 0, exh)
-	r.Rapid("random", r.N(100000, 3000000), random)
+	r.Rapid("random", r.N(100000, 10000000), random)
 }
